@@ -13,6 +13,10 @@ Tie (DESIGN.md 3.2 / section 7 C06):
   (iii) pull counts: every coefficient source and the input are counting iterators; the outputs are
         consumed one at a time and after output k every source must have been pulled exactly k
         times (`reads_once`), the final counts are compared with the iterator positions of the model;
+  (v)   entry "call2": two-call histories on the SAME filter object (first output consumed to its end,
+        then the object is called again with its own input / memory / zero): the Lean model `callTwice`
+        (the code as it is: iterators as the first call left them; a Stream-gain call deletes
+        `denpoly[0]` of the object) and the contract `specCallTwice` (coefficient streams continued);
   (iv)  entry "expr": the filter is built by an expression tree over `z**-k`, numbers and Streams
         with + - * / (ZFilter / Poly arithmetic, thub bookkeeping inside `Poly.__mul__`); the Lean
         model evaluates the same tree with the C07 `Poly` model instantiated at stream coefficients.
@@ -34,7 +38,9 @@ RULE = ("random causal filter shapes (numerator order 0..4, denominator order 0.
         "constant or a Stream (variable-gain path); built from dicts, from `Stream*z**-k` sums and quotients, from the "
         "LinearFilter base class, and (entry expr) from expression trees with + - * / over such filters; Fraction "
         "inputs of length 0..12 (quick) / 0..40 (thorough), zero value 0 or not, memory None or a list; a malformed "
-        "stream (negative delays, zero inside a Stream gain).  A case is non-trivial when the impl yields at least "
+        "stream (negative delays, zero inside a Stream gain); two-call histories (entry call2): the same shapes with "
+        "the input split at a random point into the inputs of two successive calls of one filter object, the "
+        "second with its own memory / zero value.  A case is non-trivial when the impl yields at least "
         "one sample or raises; distinct = distinct JSON case")
 TRUSTED = [
     "hand-written Lean model ALV/Model/C06.lean of LinearFilter.__call__ with Stream coefficients (modelled, not "
@@ -44,6 +50,10 @@ TRUSTED = [
     "model <-> /repo, measured by this tie",
     "translator T3 in harness/props/c06.py (ast-parser of the generated generator source, built on C04's) — "
     "self-tested on seeded source edits (extra check) and cross-checked by the I/O differential on every case",
+    "two-call histories: what a call leaves in the filter object (`advance`: every coefficient Stream where the "
+    "generated loop left its iterator; `denAfterCall`: the variable-gain path executes `den[0] = 0` on the alias "
+    "`den = self.denpoly`) is modelled by hand from LinearFilter.__call__ and measured by the entry call2 of this "
+    "tie (outputs / error of the second call, powers of denpoly after the first call, pull counts over both calls)",
     "itertools.tee / StreamTeeHub are modelled as independent iterators over the same items; that the underlying "
     "source is advanced once per sample is measured by the counting sources of this tie",
 ]
@@ -56,7 +66,12 @@ ASSUMPTIONS = [
     "declaring z as function of x and y, you should not use x and y anymore'); sharing goes through the "
     "library's thub / copy, which is what Poly.__mul__ and ZFilter.__add__ do internally",
     "the all-zero filter (no numerator, no feedback) with a Stream gain yields the zero value once per input "
-    "without ever reading the gain stream (C04's clause for the all-zero filter); model and spec follow the code",
+    "without ever reading the gain stream (C04's clause for the all-zero filter); model and spec follow the code; "
+    "Lean states the corner exactly: allzero_stream_gain / allzero_stream_gain_shape / "
+    "allzero_stream_gain_not_shortest, and call_ends_with_shortest excludes that object and nothing else",
+    "two-call histories: the first output is consumed to its end before the second call (interleaved consumption of "
+    "two outputs that share coefficient iterators is outside the property); the contract for the second call is the "
+    "same difference equation with every coefficient stream continued where the first call stopped reading",
     "a zero inside a Stream gain (a0[n] = 0) is outside the property (the equation does not determine y[n]); the "
     "tie only checks that the outputs before it agree and that ZeroDivisionError is raised there",
 ]
@@ -65,10 +80,13 @@ MANIFEST = {
                  "difference equation with the n-th coefficient values over unbounded histories = the indexed "
                  "sentence of the property; variable-gain rewriting; element-wise algebra through the C07 Laurent "
                  "homomorphism) + translator tie T3 + exact I/O and pull-count differential",
-    "note": "28 theorems; one PENDING statement (end to end from raw constructor pairs: the mkPoly/normalise/dense "
-            "pipeline on Stream-valued dictionaries, proved in C04 for field-valued ones, carried by the tie here); "
-            "D13 (coefficient stream ending before the input -> RuntimeError, PEP 479) recorded as known with "
-            "proposed_fixes/D13-coefficient-stream-end.diff",
+    "note": "40 theorems, nothing PENDING: the end-to-end statement from raw constructor pairs "
+            "(filterCallTV_eq_specCallTV) is proved with C04's dictionary lemmas generalised to any coefficient type; "
+            "the all-zero filter with a Stream gain is stated exactly (C06.9) and is the only object excluded from "
+            "call_ends_with_shortest; two-call histories: second_call_continues (constant gain) and the defect D16 "
+            "second_call_after_stream_gain (the variable-gain path deletes denpoly[0] of the filter object, the second "
+            "call raises ZeroDivisionError) recorded as known with proposed_fixes/D16-stream-gain-second-call.diff; "
+            "D13 (coefficient stream ending before the input -> RuntimeError, PEP 479) is fixed in /repo",
 }
 
 # ---------------------------------------------------------------------------------------------
@@ -397,6 +415,27 @@ def impl(c):
                 obs["ir"] = parse_source(body)
                 obs["wrapped"] = wrapped
             obs["n_exec"] = len(captured)
+        if c["entry"] == "call2" and filt is not None:
+            # the SAME filter object, called again after the first output was consumed to its end
+            sec = c["second"]
+            xin2 = Src({"kind": "finite", "vals": sec["xs"]})
+            s2, out2, stage2 = {}, [], "call"
+            try:
+                obs["dendict_after"] = [[k, _coef_obs(v)] for k, v in sorted(filt.dendict.items())]
+                kw2 = {"zero": val(sec["zero"])}
+                if sec.get("mem") is not None:
+                    kw2["memory"] = [val(v) for v in sec["mem"]["vals"]]
+                res2 = filt(xin2, **kw2)
+                stage2 = "iter"
+                for y in res2:
+                    out2.append(y)
+                s2["out"] = [enc(y) for y in out2]
+                del res2
+            except Exception as e:
+                s2 = {"err": err_kind(e), "stage": stage2, "msg": str(e)[:80], "out": [enc(y) for y in out2]}
+            s2["pulls"] = [s.pulls for s in srcs]
+            s2["xpulls"] = xin2.pulls
+            obs["second"] = s2
         del filt, res, it
     obs["leaks"] = sum(1 for w in wlist if issubclass(w.category, MemoryLeakWarning))
     return obs
@@ -420,8 +459,13 @@ def _tree_req(c, t, n):
 
 
 def request(c):
-    n = len(c["xs"])
+    n = len(c["xs"]) + (len(c["second"]["xs"]) if c["entry"] == "call2" else 0)
     r = {"entry": c["entry"], "zero": exact(c["zero"]), "xs": [exact(x) for x in c["xs"]]}
+    if c["entry"] == "call2":
+        sec = c["second"]
+        r["second"] = {"zero": exact(sec["zero"]), "xs": [exact(x) for x in sec["xs"]]}
+        if sec.get("mem") is not None:
+            r["second"]["mem"] = {"kind": "iter", "vals": [exact(v) for v in sec["mem"]["vals"]]}
     if c["entry"] == "expr":
         r["tree"] = _tree_req(c, c["tree"], n)
     else:
@@ -476,7 +520,82 @@ def compare(c, io, drv):
     return probs
 
 
+def _obs_same(obs, ref):
+    """second-call observation of the impl against a Lean observation {"err"} | {"out"}"""
+    if "err" in ref:
+        return obs.get("err") == ref["err"] and obs.get("stage") == "call"
+    return "err" not in obs and _same(obs["out"], ref["out"])
+
+
+def _obs_show(o):
+    if "err" in o:
+        return "%s at stage %s (%s) after %d outputs" % (o["err"], o.get("stage", "call"), o.get("msg", ""), len(o.get("out", [])))
+    return "%r" % ([str(dec(y)) for y in o["out"][:8]],)
+
+
+def _compare2(c, io, drv):
+    """two calls of the same filter object"""
+    model, spec = drv["model"], drv["spec"]
+    c1 = dict(c, entry="call")
+    out = list(_compare(c1, io, {"model": model["first"], "spec": spec["first"]}))
+    if out or "second" not in io:
+        return out              # the first call already disagrees / the constructor raised: no object
+    s2, m2, p2 = io["second"], model["second"], spec["second"]
+    ok_spec, ok_model = _obs_same(s2, p2), _obs_same(s2, m2)
+    if not ok_spec:
+        out.append(("spec", "second call of the same filter object: impl %s; the property (same difference equation, "
+                            "coefficient streams continued after the %d outputs of the first call) gives %s" % (
+                                _obs_show(s2), len(io.get("out", [])), _obs_show(p2))))
+        if not ok_model:
+            out.append(("model", "second call of the same filter object: impl %s, model %s" % (_obs_show(s2), _obs_show(m2))))
+    elif not ok_model and not (model.get("gainpath") and m2.get("err") == "ZeroDivisionError"):
+        # (impl == spec != model is accepted only against the modelled defect D16: that is the repaired code)
+        out.append(("model", "second call of the same filter object: impl %s, model %s" % (_obs_show(s2), _obs_show(m2))))
+    if not model.get("gainpath") and "dendict_after" in io:
+        if [k for k, _ in io["dendict_after"]] != [k for k, _ in io["dendict"]]:
+            out.append(("model", "the first call changed the powers of denpoly: %r -> %r" % (io["dendict"], io["dendict_after"])))
+    if ok_spec and "out" in s2:
+        n1, n2, L1, L2 = len(c["xs"]), len(c["second"]["xs"]), len(io.get("out", [])), len(s2["out"])
+        if L1 == n1 and L2 == n2:
+            used = _used_sources(c1, io, model["first"])
+            bad = [(i, p) for i, p in enumerate(s2["pulls"]) if i in used and p != L1 + L2]
+            if bad or s2["xpulls"] != L2:
+                out.append(("spec", "after two calls with %d + %d outputs the pull counts are %r (source, pulls), second "
+                                    "input %d: every coefficient source must have been read once per output" % (
+                                        L1, L2, bad, s2["xpulls"])))
+    return out
+
+
+D16_SIG = "call2:stream-gain:second-call-raises-ZeroDivisionError:first-call-deleted-denpoly[0]"
+
+
+def _classify2(c, io, drv):
+    model, spec = drv.get("model", {}), drv.get("spec", {})
+    c1 = dict(c, entry="call")
+    d1 = {"model": model.get("first", {}), "spec": spec.get("first", {})}
+    if "second" not in io or _compare(c1, io, d1):
+        return "call2:first-call:" + classify(c1, io, d1)
+    probs = _compare2(c, io, drv)
+    s2, m2, p2 = io["second"], model["second"], spec["second"]
+    if (model.get("gainpath") and s2.get("err") == "ZeroDivisionError" and s2.get("stage") == "call"
+            and m2.get("err") == "ZeroDivisionError" and "out" in p2 and [k for k, _ in probs] == ["spec"]
+            and any(k == 0 for k, _ in io.get("dendict", []))
+            and not any(k == 0 for k, _ in io.get("dendict_after", [[0, 0]]))):
+        return D16_SIG
+    if "err" in s2:
+        kind = "raises-%s-at-%s" % (s2["err"], s2.get("stage"))
+    elif "out" in p2 and len(s2["out"]) != len(p2["out"]):
+        kind = "output-length"
+    elif any("pull counts" in d for k, d in probs):
+        kind = "pull-counts"
+    else:
+        kind = "output-values"
+    return "call2:second-call:%s:expected-%s" % (kind, p2.get("err", "output"))
+
+
 def _compare(c, io, drv):
+    if c["entry"] == "call2":
+        return _compare2(c, io, drv)
     out = []
     model, spec = drv["model"], drv["spec"]
     n = len(c["xs"])
@@ -634,6 +753,8 @@ def nontrivial(c, io):
 # classification (known findings)
 # ---------------------------------------------------------------------------------------------
 def classify(c, io, drv):
+    if c["entry"] == "call2":
+        return _classify2(c, io, drv)
     model, spec = drv.get("model", {}), drv.get("spec", {})
     e = c["entry"]
     if "err" in io and io.get("stage") != "iter":
@@ -758,6 +879,23 @@ def _call_case(rng, max_len, p_stream=0.45, malformed=False):
     return case
 
 
+def _call2_case(rng, max_len):
+    """a two-call history: a call case whose sources are sized against the whole history, the input
+    split into the inputs of the two calls"""
+    c = _call_case(rng, max_len)
+    for f in ("numdiv", "dendiv"):
+        c.pop(f, None)
+    c = _renumber(c)
+    xs = c["xs"]
+    n1 = rng.choice([len(xs) // 2, len(xs) // 2, rng.randint(0, len(xs)), rng.randint(0, len(xs))])
+    lm = max([k for k, _ in c["den"]]) - min([k for k, _ in c["den"]])
+    mem2 = None
+    if rng.random() < 0.25:
+        mem2 = {"vals": [_sample(rng) for _ in range(lm + rng.choice([0, 0, 1]))]}
+    return dict(c, entry="call2", xs=xs[:n1],
+                second={"xs": xs[n1:], "zero": rng.choice(["0/1", "0/1", c["zero"], "7/1"]), "mem": mem2})
+
+
 def _num_tree(rng, srcs, n, pool, allow_const=True):
     """a tree that evaluates to a number or a Stream"""
     r = rng.random()
@@ -840,6 +978,8 @@ def generate(rng, tier, scale=1):
         cases.append(_call_case(rng, max_len, malformed=True))
     for _ in range((1200 if quick else 20000) * scale):
         cases.append(_expr_case(rng, 8 if quick else 16))
+    for _ in range((600 if quick else 10000) * scale):
+        cases.append(_call2_case(rng, max_len))
     return cases
 
 
@@ -861,6 +1001,20 @@ def _fixed_cases():
                         cases.append({"entry": "call", "route": "dict" if (lb + la + pos) % 2 else "zexpr",
                                       "num": num, "den": den, "srcs": [{"kind": kind, "vals": vals}],
                                       "mem": None, "zero": "0/1", "xs": xs})
+    # two-call histories: a constant gain with Stream coefficients, a Stream gain, the all-zero filter with a Stream gain
+    long_ = {"kind": "finite", "vals": ["2/1", "3/1", "4/1", "5/1", "6/1", "7/1", "8/1", "9/1"]}
+    per = {"kind": "periodic", "vals": ["1/1", "1/2"]}
+    for route in ("dict", "zexpr", "linear"):
+        for n1 in (0, 2, 3):
+            sec = {"xs": xs[n1:], "zero": "0/1", "mem": None}
+            cases.append({"entry": "call2", "route": route, "num": [[0, 1], [1, {"src": 0}]], "den": [[0, 2], [1, {"src": 1}]],
+                          "srcs": [long_, per], "mem": None, "zero": "0/1", "xs": xs[:n1], "second": sec})
+            cases.append({"entry": "call2", "route": route, "num": [[0, 1], [1, 1]], "den": [[0, {"src": 0}], [1, {"src": 1}]],
+                          "srcs": [long_, per], "mem": None, "zero": "0/1", "xs": xs[:n1], "second": sec})
+            cases.append({"entry": "call2", "route": route, "num": [[0, {"src": 1}]], "den": [[0, {"src": 0}]],
+                          "srcs": [long_, per], "mem": None, "zero": "0/1", "xs": xs[:n1], "second": sec})
+    cases.append({"entry": "call2", "route": "dict", "num": [], "den": [[0, {"src": 0}]], "srcs": [long_],
+                  "mem": None, "zero": "7/1", "xs": xs[:2], "second": {"xs": xs[2:], "zero": "7/1", "mem": None}})
     return cases
 
 
@@ -894,7 +1048,13 @@ def tally(eng, c, io):
         eng.count("stream_args", "b=%d,a=%d" % (len(ir["bargs"]), len(ir["aargs"])))
         eng.count("order_den", min(ir["nm"], 9))
         eng.count("order_num", min(ir["nd"], 9))
-    if c["entry"] == "call":
+    if c["entry"] == "call2" and "second" in io:
+        s2 = io["second"]
+        eng.count("second_call", ("%s@%s" % (s2["err"], s2.get("stage"))) if "err" in s2 else (
+            "empty-input" if not c["second"]["xs"] else "ended-by-input" if len(s2["out"]) == len(c["second"]["xs"])
+            else "ended-by-coefficient-stream"))
+        eng.count("first_call_of_history", "ended-by-input" if len(io.get("out", [])) == len(c["xs"]) else "ended-by-coefficient-stream")
+    if c["entry"] in ("call", "call2"):
         a0 = [v for k, v in c["den"] if k == min(kk for kk, _ in c["den"])]
         eng.count("gain_kind", "stream(variable-gain path)" if a0 and is_src(a0[0]) else "constant")
     n, L = len(c["xs"]), len(io.get("out", []))
@@ -908,7 +1068,7 @@ def tally(eng, c, io):
 # ---------------------------------------------------------------------------------------------
 def _renumber(c):
     """drop the sources no coefficient refers to"""
-    if c["entry"] != "call":
+    if c["entry"] not in ("call", "call2"):
         return c
     used = sorted({v["src"] for _, v in c["num"] + c["den"] if is_src(v)}
                   | {c[f]["src"] for f in ("numdiv", "dendiv") if c.get(f) is not None})
@@ -937,6 +1097,17 @@ def shrink(c):
 
 def _shrink(c):
     xs = c["xs"]
+    if c["entry"] == "call2":
+        sec = c["second"]
+        if sec["xs"]:
+            yield dict(c, second=dict(sec, xs=sec["xs"][:-1]))
+            for i, x in enumerate(sec["xs"]):
+                if val(x) != 1:
+                    yield dict(c, second=dict(sec, xs=sec["xs"][:i] + ["1/1"] + sec["xs"][i + 1:]))
+        if sec.get("mem") is not None:
+            yield dict(c, second=dict(sec, mem=None))
+        if val(sec["zero"]) != 0:
+            yield dict(c, second=dict(sec, zero="0/1"))
     if xs:
         yield dict(c, xs=xs[:-1])
         for i, x in enumerate(xs):
@@ -951,11 +1122,12 @@ def _shrink(c):
         if len(vals) > (1 if d["kind"] == "periodic" else 0):
             yield dict(c, srcs=c["srcs"][:i] + [dict(d, vals=vals[:-1])] + c["srcs"][i + 1:])
         if d["kind"] == "periodic":
-            yield dict(c, srcs=c["srcs"][:i] + [{"kind": "finite", "vals": src_items(d, len(xs))}] + c["srcs"][i + 1:])
+            yield dict(c, srcs=c["srcs"][:i] + [{"kind": "finite", "vals": src_items(
+                d, len(xs) + (len(c["second"]["xs"]) if c["entry"] == "call2" else 0))}] + c["srcs"][i + 1:])
         for j, v in enumerate(vals):
             if val(v) != 1:
                 yield dict(c, srcs=c["srcs"][:i] + [dict(d, vals=vals[:j] + ["1/1"] + vals[j + 1:])] + c["srcs"][i + 1:])
-    if c["entry"] == "call":
+    if c["entry"] in ("call", "call2"):
         for side in ("num", "den"):
             ps = c[side]
             for i, (k, v) in enumerate(ps):
